@@ -838,7 +838,7 @@ impl Engine for C13 {
         Some("calls")
     }
     fn run_timeout(&self) -> std::time::Duration {
-        std::time::Duration::from_secs(30)
+        std::time::Duration::from_secs(60)
     }
     fn plan(&self, seed: u64, run: u64, tier: Tier) -> Value {
         serde_json::to_value(plan13(seed, run, tier)).unwrap()
@@ -1103,7 +1103,7 @@ impl Engine for C13 {
     fn assumptions(&self) -> Vec<String> {
         vec![
             "consecutive EINTR are capped at 8 so that faults stop; bounded liveness is stated in reader steps (read calls <= bytes served + faults + 16)".into(),
-            "the wall-clock watchdog (30 s without progress of a worker) is a backstop only; a hit must reproduce in a fresh process".into(),
+            "the wall-clock watchdog (60 s without progress of a worker) is a backstop only; a hit must reproduce in a fresh process".into(),
             "pure nesting-depth exhaustion is out of scope (nesting capped at 30); allocation failure is not injected (it aborts)".into(),
             "input text is valid UTF-8 (the API takes a Rust String / JS string)".into(),
         ]
